@@ -157,7 +157,7 @@ def register(reg):
     @reg.contract
     class PRWait(Contract):
         key = PR + ".wait_for_connection"
-        props = ("C07", "C16", "C15")
+        props = ("C07", "C16", "C15", "C08", "C05")
         params = {"timeout": "val"}
         raises = [PT, "Cancelled", "AssertionError"]
         raises_props = ("C15",)
@@ -178,20 +178,23 @@ def register(reg):
                 return [
                     ("waits_with_the_given_timeout", ("C16",), ev.data["timeout"].t == c.eng.to_val(c.st, c.args["timeout"]).t),
                     ("waits_on_own_event", ("C07",), ev.data["event"].t == F(c, c.self, "PR._connection_acquired", old=True)),
-                    ("waits_only_while_unassigned", ("C07", "C16"), F(c, c.self, "PR.connection", old=True) == 0),
+                    ("waits_only_while_unassigned", ("C07", "C16", "C08"), F(c, c.self, "PR.connection", old=True) == 0),
                 ]
             return []
 
         def checks(self, c):
             waits = c.events("event.wait")
             had = F(c, c.self, "PR.connection", old=True) != 0
-            return [("no_wait_when_already_assigned", ("C07", "C16"), z3.Implies(had, z3.BoolVal(len(waits) == 0)))]
+            return [("no_wait_when_already_assigned", ("C07", "C16", "C08"), z3.Implies(had, z3.BoolVal(len(waits) == 0)))]
 
         def exc_checks(self, c, exc):
             if exc.cls == "AssertionError":
                 # woken without a connection: excluded by assign_to_connection's order (connection_published_before_wakeup)
                 return [("woken_only_with_a_connection", ("C07", "C08"), False)]
-            return []
+            # a wait that gives up (pool timeout, cancellation) leaves the assignment alone: the pool's exception handler looks at
+            # pool_request.connection to release a connection that was assigned at the last moment (seed C05-w5-1 wiped it here)
+            w = [e for e in c.events("field.write") if e.data["key"] in ("PR.connection", "PR._connection_acquired")]
+            return [("giving_up_the_wait_leaves_the_assignment_for_the_pool_to_release", ("C05", "C07"), len(w) == 0 and not c.events("pr.clear"))]
 
         def after_event_wait(self, c, ev):
             # guarantee of assign_to_connection (connection_published_before_wakeup): an event that
